@@ -196,8 +196,60 @@ def estimate_dtype(ctx):
                     f"{PX}:{w.lineno}")
 
 
+def stick_branch_jacobian(ctx, rule="C27.R7"):
+    """In the stick branch the implemented residual is one of its arguments itself (`return x`: the modified equation of the active-set
+    strategy).  Its derivative is then exact and trivial: identity with respect to that argument, zero with respect to the others.  The
+    Jacobian's stick branch must say exactly that - any factor on the identity (rho!) belongs to the unmodified equation y + prox(rho x - y),
+    which is NOT what residual() returns."""
+    rep = ctx.rep
+    sph = ctx.model.cls("Sphere", PX)
+    res, jac = sph.methods.get("residual"), sph.methods.get("Jacobian")
+    C = f"{PX}:Sphere.Jacobian"
+    if res is None or jac is None:
+        raise AnalysisError("Sphere.residual / Sphere.Jacobian vanished")
+
+    def stick(fn):
+        for w in ast.walk(fn):
+            if isinstance(w, ast.If) and norm_src(w.test) == "active_set":
+                return w.body
+        return None
+    rb, jb = stick(res), stick(jac)
+    if rb is None or jb is None:
+        rep.ok(rule, C, "no `if active_set:` branch in residual / Jacobian (no verdict)", verdict="unknown", trivial=True)
+        return
+    rets = [w.value for st in rb for w in ast.walk(st) if isinstance(w, ast.Return)]
+    params = [a.arg for a in res.args.args][1:]
+    if len(rets) != 1 or not isinstance(rets[0], ast.Name) or rets[0].id not in params:
+        rep.ok(rule, C, f"the stick residual `{norm_src(rets[0]) if rets else '?'}` is not a bare argument (no verdict)", verdict="unknown", trivial=True)
+        return
+    wrt = rets[0].id
+    stores = {}
+    for st in jb:
+        for w in ast.walk(st):
+            if isinstance(w, ast.Assign) and len(w.targets) == 1 and isinstance(w.targets[0], ast.Name):
+                stores[w.targets[0].id] = w.value
+    for name, v in sorted(stores.items()):
+        if not name.startswith("J"):
+            continue
+        is_eye = isinstance(v, ast.Call) and (dotted(v.func) or "").split(".")[-1] in ("eye", "identity")
+        is_zero = isinstance(v, ast.Call) and (dotted(v.func) or "").split(".")[-1] in ("zeros", "zeros_like")
+        if name == "J" + wrt:
+            if is_eye:
+                rep.ok(rule, C, f"stick branch: {name} = `{norm_src(v)}` is the derivative of the stick residual `{wrt}`")
+            else:
+                rep.bad(rule, C, v, f"stick branch: residual() returns `{wrt}` itself, whose derivative with respect to `{wrt}` is the identity, but Jacobian() reports {name} = `{norm_src(v)[:60]}`: "
+                        "the reported Jacobian is not the derivative of the implemented residual well inside the ball", f"{PX}:{v.lineno}")
+        else:
+            if is_zero:
+                rep.ok(rule, C, f"stick branch: {name} = 0 (the stick residual does not depend on {name[1:]})")
+            else:
+                rep.bad(rule, C, v, f"stick branch: residual() returns `{wrt}`, which does not depend on `{name[1:]}`, but Jacobian() reports {name} = `{norm_src(v)[:60]}` instead of zeros", f"{PX}:{v.lineno}")
+
+
 def run(ctx):
     rep = ctx.rep
+    rep.rule("C27.R7", "stick branch: the Jacobian the ball reports is the derivative of the residual it implements there (the bare argument x): identity in x, zero in y and z", 3)
+    stick_branch_jacobian(ctx)
     rep.rule("C27.R6", "Sphere.residual and Sphere.Jacobian normalise the slip argument with the same plain norm", 3)
     norm_agreement(ctx)
     rep.rule("C27.R5", "the prox-parameter estimate for a non-empty W does not pass through a buffer typed by an argument's dtype", 1)
@@ -383,4 +435,9 @@ NEUTRAL += [
 MUTANTS += [
     dict(id="c27-r6-seed", canary=True, what="[seeded by sub-agent] Sphere.Jacobian clamps the norm of the slip argument by machine epsilon", file=PX,
          old="            norm_arg = np.linalg.norm(arg)\n", new="            norm_arg = max(np.linalg.norm(arg), np.finfo(float).eps)\n", expect="C27.R6"),
+]
+
+MUTANTS += [
+    dict(id="c27-r7-seed", canary=True, what="[seeded by sub-agent] Sphere.Jacobian stick branch 'corrected' to Jx = rho * eye (derivative of the unmodified equation, not of residual())", file=PX,
+         old="            Jx = np.eye(nx)\n", new="            Jx = rho * np.eye(nx)\n", expect="C27.R7"),
 ]
